@@ -204,7 +204,11 @@ pub fn run(ctx: &Ctx, rep: &mut Report) {
         };
         r.calls += 1;
         let is_rc5 = name.starts_with("RC5<");
-        let ns: Vec<usize> = if is_rc5 { (0..=5).collect() } else { (0..=nmax).collect() };
+        let mut ns: Vec<usize> = if is_rc5 { (0..=5).collect() } else { (0..=nmax).collect() };
+        if !is_rc5 {
+            // a few large batches (8- and 16-bit loop counters, chunking of long slices)
+            ns.extend([255usize, 256, 257, 1000]);
+        }
         let mut idx = 0u64;
         for dir in [Dir::Enc, Dir::Dec] {
             if (dir == Dir::Enc && !caps.enc) || (dir == Dir::Dec && !caps.dec) {
@@ -217,6 +221,9 @@ pub fn run(ctx: &Ctx, rep: &mut Report) {
                         continue;
                     }
                     for &(io, oo) in &offsets {
+                        if n > 200 && ((io, oo) != (0, 0) || !matches!(shape, Shape::Blocks | Shape::BlocksB2b | Shape::BlocksInoutSep)) {
+                            continue;
+                        }
                         // thorough: every offset pair for n <= 19 (covers every native parallel width twice over);
                         // larger n only at the quick tier's five pairs
                         if offsets.len() > 5 && n > 19 && ![(0, 0), (1, 1), (3, 8), (15, 15), (0, 7)].contains(&(io, oo)) {
@@ -225,8 +232,8 @@ pub fn run(ctx: &Ctx, rep: &mut Report) {
                         if !shape.separate() && io != oo && !(io == 0) {
                             continue; // in-place shapes only use the output offset
                         }
-                        let mut contents = vec![Content::Distinct, Content::Equal];
-                        if (io, oo) == (0, 0) && matches!(shape, Shape::Blocks | Shape::BlocksB2b) {
+                        let mut contents = if n > 200 { vec![Content::Distinct] } else { vec![Content::Distinct, Content::Equal] };
+                        if (io, oo) == (0, 0) && n <= 200 && matches!(shape, Shape::Blocks | Shape::BlocksB2b) {
                             contents.extend((0..bs).map(Content::DifferInByte));
                         }
                         for &content in &contents {
